@@ -195,6 +195,10 @@ func c34Units(types []c34TypeDef, shapes []string) []c34Unit {
 		for si, sh := range shapes {
 			d := append(append([]byte{}, td.Hdr...), c34Body(sh, ti*7+si)...)
 			out = append(out, c34Unit{Type: td.Name, Shape: sh, SEI: td.SEI, Data: d})
+			if sh == "hdr-only" && len(td.Hdr) > 1 {
+				// H.265: a unit of ONE byte (the statement's range starts at 1 byte): the type bits are in that byte
+				out = append(out, c34Unit{Type: td.Name, Shape: "first-header-byte-only", SEI: td.SEI, Data: append([]byte{}, td.Hdr[:1]...)})
+			}
 		}
 	}
 
